@@ -49,7 +49,7 @@ def histTablesOf (input : Json) : Except String (List HistT) := do
 def histCanon (t : HistT) : Res StoredTable :=
   ingestTable (refSort t.pk) Facts.blockSize Facts.addRowMaxCell (2 ^ 40) t.columns t.pk t.rows
 
-def handleC01 (op : String) (input impl : Json) : Except String Json := do
+def handleC01Core (op : String) (input impl : Json) : Except String Json := do
   match op with
   | "ingest-big" =>
     -- size boundary: n distinct keys; the model's closed form (C01_unique_exact + C19_block_cut):
@@ -144,6 +144,29 @@ def handleC01 (op : String) (input impl : Json) : Except String Json := do
 where
   hasDupKeysRows (pk : List Nat) (rows : List Row) : Bool := (distinctKeys pk rows).length != rows.length
 
+/-- C01 ops; "ingest-torn-spill": an ingest during which one spill file was cut short in the middle
+    of a field before the merge read it back (`cut`). The ingest fails, or what it stores satisfies
+    every clause of "ingest" for the rows of the CSV: it never hands back a table that lacks rows.
+    The model refuses (a torn record is never the end of a run); when no spill file was cut the case
+    is an "ingest" case. -/
+def handleC01 (op : String) (input impl : Json) : Except String Json := do
+  match op with
+  | "ingest-torn-spill" =>
+    let cutOf := fun (j : Json) => (fldD j "cut" (Json.bool false)).getBool?.toOption.getD false
+    if resClass impl == "err" && cutOf impl then
+      if (fldD impl "kind" Json.null).getStr?.toOption == some "ingest" then
+        return reply (Json.mkObj [("res", "err"), ("kind", "torn-spill-file-refused")]) true []
+      else
+        -- a table was handed back that cannot be read
+        return reply (Json.mkObj [("res", "err"), ("kind", "torn-spill-file-refused")]) false ["table-readable"]
+    let r ← handleC01Core "ingest" input impl
+    if resClass impl == "ok" && cutOf (fldD impl "val" Json.null) then
+      -- stored although a spill file was torn: acceptable only if complete (clauses above); the model refuses
+      let viol := ((fldD r "violations" (Json.arr #[])).getArr?.toOption.getD #[]).toList.filterMap (fun j => j.getStr?.toOption)
+      return reply (Json.mkObj [("res", "err"), ("kind", "torn-spill-file-refused")]) false (viol.map (fun s => "torn-spill:" ++ s))
+    return r
+  | _ => handleC01Core op input impl
+
 def fullTableOf (t : TableD) (hashes : List (List (Bytes × Bytes))) : FullTable :=
   { columns := t.columns, pk := t.pk, rowsCount := t.rowsCount, blocks := t.blocks.map (·.rows), hashes := hashes,
     indices := t.blocks.filterMap (·.idx), tblIdx := t.tblIdx }
@@ -223,6 +246,25 @@ def handleC02 (op : String) (input impl : Json) : Except String Json := do
       | .ok b => b == raw
       | _ => false
     return reply (jRes jBytes mb) agree viol
+  | "ids-spill-write-fault" =>
+    -- the same CSV ingested in memory (base), with spills (control) and with spills while no spill
+    -- file can grow beyond a size limit, so that a write of every spill file fails (limited): an ingest
+    -- gives the table the identifier of its content or fails; it never hands back another identifier
+    if resClass impl != "ok" then
+      return reply Json.null false [if resClass impl == "panic" then "no-panic" else "unexpected-error"]
+    let v := fldD impl "val" Json.null
+    let base ← strFld v "base"
+    let control ← strFld v "control"
+    let lim ← fld v "limited"
+    let limViol :=
+      if resClass lim == "ok" then
+        (if (fldD (fldD lim "val" Json.null) "sum" Json.null).getStr?.toOption == some base then []
+         else ["failed-spill-write:same-id-or-error"])
+      else if resClass lim == "panic" then ["no-panic"]
+      else if (fldD lim "kind" Json.null).getStr?.toOption == some "ingest" then []
+      else ["unexpected-error"]
+    let viol := (if control == base then [] else ["same-content-same-id"]) ++ limViol
+    return reply (Json.mkObj [("limited", Json.str "error-or-base-id")]) viol.isEmpty viol
   | "cli-ids" =>
     -- the identifier as the commit command sees it, over a history of `wrgl commit main MSG` from the
     -- branch's configured file and key. Per step the harness reports what the command said, the head
